@@ -4,6 +4,7 @@ import AslProofs.ArrayQsort
 import AslProofs.ArrayQsortTotal
 import AslProofs.ArrayQsortSorted
 import AslProofs.ArrayOrders
+import AslProofs.ArrayQsortTmp
 import AslProofs.ArrayCloneInd
 /-!
 # C01 — Array, Stack and Queue behave as a sequence for every operation history
@@ -322,6 +323,54 @@ example : ∃ sp : Sp (List UInt8), SpWf sp ∧ sp.occ 0 = true ∧ sp.get 0 = [
     cases slot with
     | zero => simp at h; subst h; decide
     | succ k => simp at h, rfl, rfl⟩
+
+/-! ### the element temporaries of `sort` (pivot copy `T p = a[n/2]`, `swap`'s `T A = a`) -/
+
+/-- **construct-once / destroy-once holds across `sort`, temporaries included.**  `qsortListT` is the run function
+`qsortList` with a ledger of every copy construction and destruction the source makes on the way (one pivot per pass of
+the `while`, alive during the nested call; one temporary per `swap`).  For every irreflexive comparison, every sequence
+and every starting ledger: it computes the same sequence as `qsortList` (first conjuncts), when it returns the
+instance counter is back at its starting value, every temporary made has been destroyed (`made` and `freed` grew by the
+same amount), and every element value occurs in the result exactly as often as in the input. -/
+theorem sort_temporaries_destroyed [DecidableEq α] (lt : α → α → Bool) (hirr : ∀ x, lt x x = false) (l : List α) (t : Tmp) :
+    ∃ l' t', qsortListT lt l t = some (l', t') ∧ qsortList lt l = some l' ∧
+      t'.live = t.live ∧ t'.made + t.freed = t'.freed + t.made ∧ t.made ≤ t'.made ∧
+      ∀ v, l'.count v = l.count v := by
+  obtain ⟨l', hl'⟩ := Option.isSome_iff_exists.mp (qsortList_total lt hirr l)
+  have hf := qsortListT_fst lt l t
+  rw [hl'] at hf
+  cases hT : qsortListT lt l t with
+  | none => rw [hT] at hf; cases hf
+  | some res =>
+    rw [hT] at hf
+    simp only [Option.map_some, Option.some.injEq] at hf
+    obtain ⟨b1, b2, b3, _⟩ := qsortListT_bal lt hT
+    refine ⟨l', res.2, ?_, hl', b1, b2, b3, fun v => (qsortList_perm lt hl').count_eq v⟩
+    rw [← hf]
+
+/-- the hypothesis is satisfiable and the ledger is not idle: sorting `[3, 1, 2]` makes and destroys temporaries -/
+example : (qsortListT (fun a b : Int => decide (a < b)) [3, 1, 2] ⟨3, 0, 0, 3⟩).map (fun r => (r.1, r.2.live, decide (0 < r.2.made), decide (r.2.made = r.2.freed)))
+    = some ([1, 2, 3], 3, true, true) := by decide
+
+/-- **`Array<T>::sort` on a block of counted elements**: for every block holding `l` (any spare capacity `k`), `sort`
+succeeds in place, the block then holds the permutation `l'` the ledgered quicksort computes, and the block's
+live-instance counter after `sort` equals the ledger's: unchanged, with all temporaries destroyed. -/
+theorem sort_counted_lifecycle [DecidableEq α] (lt : α → α → Bool) (hirr : ∀ x, lt x x = false) (s : BS α) (l : List α)
+    (k : Nat) (hrep : Rep s l k) :
+    ∃ s' k' l' t', sortB lt s = some s' ∧ Rep s' l' k' ∧
+      qsortListT lt l ⟨s.live, 0, 0, s.live⟩ = some (l', t') ∧
+      s'.live = s.live ∧ t'.live = s'.live ∧ t'.made = t'.freed ∧ s'.rc = s.rc ∧ ∀ v, l'.count v = l.count v := by
+  obtain ⟨l', t', h1, h2, h3, h4, _, h6⟩ := sort_temporaries_destroyed lt hirr l ⟨s.live, 0, 0, s.live⟩
+  obtain ⟨s', k', g1, g2, g3, g4⟩ := refinesAt_sort lt l l' h2 s k hrep
+  simp only [h2, Option.getD_some] at g2 g4
+  have hlen := qsortList_length lt h2
+  have hlive : s'.live = s.live := by rw [g4, hlen]; omega
+  refine ⟨s', k', l', t', g1, g2, h1, hlive, ?_, ?_, g3, h6⟩
+  · rw [h3, hlive]
+  · simpa using h4
+
+/-- non-vacuity: a block holding three constructed elements and one spare cell -/
+example : Rep (⟨[some 3, some 1, some 2, none], 3, 1, 3, false⟩ : BS Int) [3, 1, 2] 1 := ⟨rfl, rfl, by decide⟩
 
 /-! ## consequences inside the reference semantics (inherited by the model through `array_refines_seq_partial`:
 every reachable model state is `Good st sp`, and `Good.spwf` gives the hypotheses used here) -/
